@@ -62,7 +62,13 @@ def extra_scripts(B=16):
     between runs): a download whose peer never reads the data connection, so that the server's
     transfer worker sits in a blocked write with unsent bytes when the session is cut."""
     L = _login()
-    return {"stalled_reader": L + [["get_stalled", "RETR big.bin", 20.0], ["close"]]}
+    return {
+        "stalled_reader": L + [["get_stalled", "RETR big.bin", 20.0], ["close"]],
+        # many pipelined commands and QUIT while the peer reads nothing: the replies queue up
+        # behind a blocked write, the dispatcher waits for the queue to drain - and then the peer
+        # goes away
+        "flood_quit": L + [["raw", "PWD\r\n" * 40 + "QUIT\r\n"], ["sleep", 20.0], ["close"]],
+    }
 
 
 USERS = [
